@@ -24,6 +24,10 @@ def run(tier, seed):
         states += r.distinct
         trans += r.generated
         v.cov["mc_configs"].append({"cfg": f"MC_Framing_{c}", "distinct": r.distinct, "generated": r.generated, "result": "all invariants hold"})
+    rt_ = lib.tlc_expect_ok("mc/MC_Framing.tla", "mc/MC_Framing_timeout.cfg", PID, "mc_timeout")
+    v.cov["mc_configs"].append({"cfg": "MC_Framing_timeout", "distinct": rt_.distinct, "generated": rt_.generated, "result": "all invariants hold when a read timeout ends the stream (GiveUp)"})
+    lib.tlc_expect_violation("mc/MC_Framing.tla", "mc/MC_Framing_resume.cfg", PID, "mc_resume", "OutIsPrefixOfSent")
+    v.cov["mc_configs"].append({"cfg": "MC_Framing_resume", "result": "counterexample to OutIsPrefixOfSent when reading goes on after a read timeout inside a frame (the scenario run on the real node by C17's stalled reply)"})
     lib.tlc_expect_violation("mc/MC_Framing.tla", "mc/MC_Framing_weak.cfg", PID, "mc_weak", "OutIsPrefixOfSent")
     v.cov["mc_configs"].append({"cfg": "MC_Framing_weak", "result": "counterexample to OutIsPrefixOfSent as expected (EofYieldsShort)"})
     v.cov["states"], v.cov["transitions"] = states, trans
